@@ -1,4 +1,6 @@
 use super::scheduler_future::*;
+use super::job_queue::*;
+use super::queue_state::*;
 
 use futures::prelude::*;
 use futures::task;
@@ -7,6 +9,8 @@ use futures::channel::oneshot;
 
 use std::mem;
 use std::pin::*;
+use std::sync::Arc;
+use std::thread;
 
 ///
 /// The state of a SyncFuture operation
@@ -24,6 +28,30 @@ where TFuture: Future {
 
     /// Finished evaluating
     Completed
+}
+
+///
+/// Marks a queue as panicked if the future that a SyncFuture is running for it panics
+///
+/// The future runs on the thread that polls the SyncFuture, while the queue is held for it by whatever is running the queue. That runner
+/// is waiting for the future to finish (or is just about to): the queue's state is changed once it is
+///
+struct PanickingFuture<'a>(&'a JobQueue);
+
+impl<'a> Drop for PanickingFuture<'a> {
+    fn drop(&mut self) {
+        if thread::panicking() {
+            while let Ok(mut core) = self.0.core.lock() {
+                match core.state {
+                    QueueState::Running | QueueState::AwokenWhileRunning => { }
+                    _ => { core.state = QueueState::Panicked; break; }
+                }
+
+                mem::drop(core);
+                thread::yield_now();
+            }
+        }
+    }
 }
 
 ///
@@ -72,6 +100,9 @@ where   TFn:                Unpin+Send+FnOnce() -> TFuture,
     fn poll(mut self: Pin<&mut Self>, context: &mut task::Context) -> Poll<Self::Output> {
         use self::SyncFutureState::*;
 
+        // If the future panics, the queue it runs on is marked as panicked, as it is when any other kind of job panics
+        let queue = Arc::clone(self.scheduler_future.queue());
+
         // Rust doesn't seem to have a way to let us update the state in-place, so we need to swap out the old state and swap in the new state
         let mut result;
         let mut state = Completed;
@@ -97,7 +128,10 @@ where   TFn:                Unpin+Send+FnOnce() -> TFuture,
                                 #[cfg(feature = "verif-hooks")]
                                 crate::verif::point_here();
                                 // Start the future
-                                let future = create_future();
+                                let future = {
+                                    let _panicking = PanickingFuture(&*queue);
+                                    create_future()
+                                };
 
                                 // Poll it immediately to determine its status
                                 result = Poll::Pending;
@@ -122,7 +156,12 @@ where   TFn:                Unpin+Send+FnOnce() -> TFuture,
                 }
 
                 WaitingForFuture(mut future) => {
-                    if let Poll::Ready(future_result) = future.poll_unpin(context) {
+                    let poll_result = {
+                        let _panicking = PanickingFuture(&*queue);
+                        future.poll_unpin(context)
+                    };
+
+                    if let Poll::Ready(future_result) = poll_result {
                         // Future has completed
                         #[cfg(feature = "verif-hooks")]
                         crate::verif::point_here();
